@@ -121,7 +121,9 @@ class KeyAction(object):
                 raise PGPError("No key!")
 
             # if a key is in the process of being created, it needs to be allowed to certify its own user id
-            if len(key._uids) == 0 and key.is_primary and action is not key.certify.__wrapped__:
+            # (... its own: with that exception a key without an identity does nothing, certifying somebody else's included)
+            if len(key._uids) == 0 and key.is_primary and not (action is key.certify.__wrapped__ and len(args) > 0
+                                                                and getattr(args[0], 'parent', None) is key):
                 raise PGPError("Key is not complete - please add a User ID!")
 
             with self.usage(key, kwargs.get('user', None)) as _key:
